@@ -240,8 +240,14 @@ package main
 //@ func isAllowedPath
 //@ nomod
 //@ prop C15
-//@ ensures[regex-on-path-only-with-negation] result <==> (reMatch(route.pathRegex, pathPart(ret(GetRequestURI))) != route.negate)
-//@ ensures[same-request] arg(GetRequestURI, 0) == req
+//@ ensures[regex-on-path-only-with-negation] result <==> (reMatch(route.pathRegex, ret(requestPath)) != route.negate)
+//@ ensures[same-request] arg(requestPath, 0) == req
+
+//@ func requestPath
+//@ safety
+//@ nomod
+//@ prop C15
+//@ ensures[path-without-query-or-fragment] result == pathPart(ret(GetRequestURI)) && arg(GetRequestURI, 0) == req
 
 //@ func (*OAuthProxy).isAllowedRoute
 //@ nomod
